@@ -7,6 +7,7 @@ RULE = ("TLC: ProofList.tla - a free adversary assembles attempts proof by proof
         "HonestAccepted. Replay: for selected builder configurations EVERY attempt of length <= 2 (thorough: plus a seeded sample of length 3) is "
         "assembled from two real sessions (1024-bit keys, real credentials and issuance commitments) and given to ProofList.Verify with exactly the "
         "attempt's arguments; VIOLATION = real acceptance of an attempt the spec marks not honest / not linked, a panic, or rejection of a complete honest list. "
+        "Context and nonce range over the session's value, another value, 0 and the NEGATION of the session's value. "
         "Non-trivial = distinct attempt that is not an honest linked session.")
 ASSUME = ["Fiat-Shamir hash idealised as injective in the model (its encoding is C15's subject)", "1024-bit fixed keys",
           "side doors beyond 'discloses attribute 0' and 'second R_0 response' are not enumerated"]
@@ -21,7 +22,7 @@ def run_pl(chk, prop):
     r = vplib.tlc("ProofList", "ProofList.nonvacuous.cfg", timeout=900, allow_fail=True)
     if "SomeAccept" not in r.invariant_violated:
         raise vplib.Machinery("vacuity check failed: acceptance not reachable in the model")
-    sels = [1, 2, 3, 4, 5] if thorough else ([1, 2, 4] if prop == "C03" else [1, 3, 5])
+    sels = [1, 2, 3, 4, 5, 6] if thorough else ([1, 2, 4] if prop == "C03" else [1, 3, 5, 6])
     cases = []
     for s in sels:
         g = vplib.tlc("ProofListGen", "ProofList.gen.%d.cfg" % s, workers=1, timeout=1500)
